@@ -49,6 +49,17 @@ pub async fn on_document_selection_range_handle(
             ranges.push(range);
         }
 
+        // selection ranges must strictly grow outward: drop every range that does not strictly
+        // contain the previous (inner) one, e.g. ancestors covering the same text
+        let mut strict_ranges: Vec<TextRange> = Vec::with_capacity(ranges.len());
+        for range in ranges {
+            match strict_ranges.last() {
+                Some(inner) if !range.contains_range(*inner) || range == *inner => {}
+                _ => strict_ranges.push(range),
+            }
+        }
+        let ranges = strict_ranges;
+
         let mut parent: Option<Box<SelectionRange>> = None;
         for range in ranges.into_iter().rev() {
             let lsp_range = document.to_lsp_range(range)?;
